@@ -134,13 +134,94 @@ RULE = (
 )
 
 
+_NOPROV = {}
+
+
+def noprovider_schema():
+    """A schema registered the way notebooks do it (register_in_group only): it has no entry point, so the plugin system cannot name a
+    providing package and TOCSchemas._register fails when the first object is attached."""
+    if not _NOPROV:
+        from metador_core.plugin.util import register_in_group
+        from metador_core.plugins import schemas
+        from metador_core.schema import MetadataSchema
+
+        class NoProv(MetadataSchema):
+            class Plugin:
+                name = "vq.noprovider"
+                version = (0, 1, 0)
+
+            x: int
+
+        register_in_group(schemas, NoProv, violently=True)
+        _NOPROV["cls"] = schemas.get("vq.noprovider", (0, 1, 0))
+    return _NOPROV["cls"]
+
+
+def phase_failed_attach(chk, rec, d, bounds):
+    """'After every container operation, successful OR FAILED': an attach that fails inside the TOC registration (no provider for the schema)
+    leaves no object, no schema record, no reserved link, and the container opens afterwards."""
+    n = 0
+    for kind in ("h5", "ih5"):
+        for with_other in (False, True):
+            wd = d / f"failattach_{kind}_{int(with_other)}"
+            wd.mkdir()
+            case = {"part": "failed-attach", "kind": kind, "with_other": with_other}
+            rec.case(("failed-attach", kind, with_other), nontrivial=True)
+            h = C.Handle(kind, wd)
+            try:
+                cls = noprovider_schema()
+                h.mc["d"] = 1
+                h.mc.create_group("g")
+                if with_other:
+                    C.apply_cop(h, ["attach", "/g", *sorted(k for k, i in C.install_families().items() if i.instances and not i.auxiliary)[0], 0])
+                S0 = C.scan_toc(h.raw)
+                before = _codes(C.toc_inv_raw(S0) + C.toc_inv_mem(S0, h.mc))
+                for path in ("/d", "/g"):
+                    try:
+                        C.node_of(h.mc, path).meta[cls] = cls(x=1)
+                        status = "ok"
+                    except Exception as e:  # noqa
+                        status = type(e).__name__
+                    S = C.scan_toc(h.raw)
+                    viols = [(c, w) for c, w in C.toc_inv_raw(S) + C.toc_inv_mem(S, h.mc) if c not in before]
+                    rec.check(not viols, "c06:failed-attach:" + (viols[0][0] if viols else ""), f"[{kind}] attach of a schema without provider to {path} ({status}) leaves TocInv broken: {viols[:2]}", case, FNS["3"] + ["container/interface.py:MetadorMeta._set_raw"])
+                    n += 1
+                try:
+                    h.reopen()
+                    ok = None
+                except Exception as e:  # noqa
+                    ok = e
+                rec.check(ok is None, "c06:failed-attach:container-does-not-open", f"[{kind}] after a failed attach the container cannot be opened: {type(ok).__name__}: {ok}", case, FNS["3"])
+            except Exception as e:  # noqa
+                rec.violated(f"c06:failed-attach:driver-exception:{type(e).__name__}", f"[{kind}] {type(e).__name__}: {e}", case, FNS["3"])
+            finally:
+                h.close()
+    bounds["failed_attach"] = f"failed attach (schema without a providing package): {n} attaches on dataset and group, both drivers, with and without other metadata present, then reopen"
+
+
 def run(tier: str, seed: int) -> dict:
     return C.run_driver(
         Checker, tier, seed, RULE,
+        extra_phase=phase_failed_attach,
         assumptions=["TocInv as spelled out in DESIGN C06 (1)-(6) is the reading of 'exact one-to-one sync'",
                      "other metador_* names outside the known layout are C08's business and not judged here"],
         trusted=["scanner reads in-memory managers through the private attributes named in the property anchors (_toc_path, _schemas, _parents, _children, _used, _pkginfos, _providers)"],
     )  # fmt: skip
 
 
-replay = C.make_replay(Checker)
+_replay_history = C.make_replay(Checker)
+
+
+def replay(case: dict):
+    if case.get("part") == "failed-attach":
+        from rac.base import Recorder, tmpdir
+
+        C.install_families()
+        rec = Recorder("C06", "c06", max_violations=50)
+        with tmpdir() as d:
+            phase_failed_attach(None, rec, d, {})
+        hit = [v for v in rec.violations if v["replay"]["case"].get("kind") == case.get("kind")] or rec.violations
+        if hit:
+            return True, f"{hit[0]['signature']}: {hit[0]['what']}"[:600]
+        return False, "failed-attach phase: nothing is left behind and the container opens"
+    return _replay_history(case)
